@@ -111,6 +111,12 @@ class _Guarded:
 
 def prove_clause(I, prefix, cl, kind="vc"):
     """emit the obligations of one clause under the current path; afterwards it is assumed"""
+    if getattr(cl, "input_assumption", False):
+        # a clause about the *inputs* the function relays (e.g. the quotes carried by the events it delivers stay within the
+        # property's quantifier): not an effect of the code, never proved, listed as an assumption
+        I.log.append("assumed input clause %s%s" % (prefix, cl.name))
+        assume_clause(I, cl)
+        return []
     known = getattr(cl, "known", None)
     if isinstance(cl, Cl):
         return [I.oblige(prefix + cl.name, cl.fml, kind=kind, known=known)]
@@ -547,6 +553,8 @@ def verify(con, registry, opts=None, initial=None):
         for l in I.log:
             if l.startswith("inlined "):
                 res.inlined.add(l[8:])
+            elif l.startswith("assumed input clause "):
+                res.notes.add(l)
             elif l.startswith("assumed "):
                 res.assumed.add(l[8:])
             elif l.startswith("unmodelled attribute"):
